@@ -8,26 +8,36 @@ import (
 )
 
 var (
-	pxSpecial  = []int{1, 1, 2, 3, 7, 16, 33, 48, 63, 64}
-	mmSpecial  = []float64{0.1, 0.1, 500, 25.4, 10, 1.0 / 3, 99.99, 0.15, 210, 0.29, 123.456, 499.99}
-	phNames    = []string{"a", "a", "b", "b", "c", "d", "img_1", "X9"}
-	aroundText = []string{"", "", "", " ", "x", "Hello world", "图 ", "  y", "\t", "see: "}
-	someTexts  = []string{"", "t", "Kopfzeile", "页眉 <1> & \"q\"", "item"}
-	sizeModes  = []string{"nil", "nil", "none", "none", "both", "both", "both", "both", "bothkeep", "wkeep", "wkeep", "wkeep", "wkeep", "hkeep", "hkeep", "hkeep", "hkeep", "wonly", "honly"}
-	cellModes  = []string{"none", "none", "both", "both", "bothkeep", "wkeep", "wkeep", "wkeep", "hkeep", "hkeep", "hkeep", "wonly", "honly"}
-	vias       = []string{"data", "data", "data", "file", "file", "details-data", "details-file", "details-both"}
-	reuseVias  = []string{"data", "file", "file", "file", "details-data", "details-file", "details-file", "details-both"}
-	tplKinds   = weighted(map[string]int{"img": 8, "imgfile": 4, "table": 4, "cellimg": 3, "cellimgd": 2, "cellimgf": 2, "phpara": 18, "cellph": 10,
-		"render": 6, "reopen": 5, "renumber": 1, "save": 3, "header": 2, "footer": 1, "listitem": 2, "para": 3})
+	pxSpecial   = []int{1, 1, 2, 3, 7, 16, 33, 48, 63, 64}
+	mmSpecial   = []float64{0.1, 0.1, 500, 25.4, 10, 1.0 / 3, 99.99, 0.15, 210, 0.29, 123.456, 499.99, 1, 100, 0.5}
+	phNames     = []string{"a", "a", "b", "b", "c", "d", "img_1", "X9", "a", "b", "ab", "A", "img_10", "img"}
+	allPhNames  = []string{"a", "b", "c", "d", "img_1", "X9", "ab", "A", "img_10", "img"}
+	aroundText  = []string{"", "", "", " ", "x", "Hello world", "图 ", "  y", "\t", "see: "}
+	someTexts   = []string{"", "t", "Kopfzeile", "页眉 <1> & \"q\"", "item"}
+	sizeModes   = []string{"nil", "nil", "none", "none", "both", "both", "both", "both", "bothkeep", "wkeep", "wkeep", "wkeep", "wkeep", "hkeep", "hkeep", "hkeep", "hkeep", "wonly", "honly", "empty", "emptykeep"}
+	resizeModes = []string{"both", "both", "both", "bothkeep", "wkeep", "wkeep", "hkeep", "hkeep", "wonly", "honly", "empty"}
+	// names on top of gen.ImgNames: names the library itself generates (for media parts, for template and cell pictures),
+	// names that differ only in case or are prefixes of one another, white space at the ends and inside
+	moreNames = []string{"image10.png", "image9.png", "image2.jpeg", "image_0.png", "image_1.png", "cell_image.png", "Same.PNG", "SAME.png", "same.png.png",
+		"same", "image1", "image1.png.png", "image01.png", "rId3.png", "a\tb.png", " lead.png", "trail.png ", "b.JPG", "B.jpg"}
+	cellModes = []string{"none", "none", "both", "both", "bothkeep", "wkeep", "wkeep", "wkeep", "hkeep", "hkeep", "hkeep", "wonly", "honly"}
+	vias      = []string{"data", "data", "data", "file", "file", "details-data", "details-file", "details-both"}
+	reuseVias = []string{"data", "file", "file", "file", "details-data", "details-file", "details-file", "details-both"}
+	tplKinds  = weighted(map[string]int{"img": 8, "imgfile": 4, "table": 4, "cellimg": 3, "cellimgd": 2, "cellimgf": 2, "phpara": 18, "cellph": 10,
+		"render": 6, "reopen": 5, "renumber": 1, "save": 3, "header": 2, "footer": 1, "listitem": 2, "para": 3,
+		"resize": 2, "setlook": 1, "imgnoelem": 1, "badadd": 1, "swap": 1})
 	directKinds = weighted(map[string]int{"img": 14, "imgfile": 8, "table": 3, "cellimg": 6, "cellimgd": 4, "cellimgf": 4,
-		"reopen": 10, "renumber": 5, "save": 4, "header": 3, "footer": 2, "listitem": 3, "para": 2})
+		"reopen": 10, "renumber": 6, "save": 4, "header": 3, "footer": 2, "listitem": 3, "para": 2,
+		"resize": 6, "setlook": 3, "imgnoelem": 2, "badadd": 3, "swap": 3})
 	stepKinds = weighted(map[string]int{"img": 14, "imgfile": 8, "table": 4, "cellimg": 6, "cellimgd": 4, "cellimgf": 4, "phpara": 10, "cellph": 6,
-		"render": 8, "reopen": 8, "renumber": 4, "save": 5, "header": 3, "footer": 2, "listitem": 3, "para": 3})
+		"render": 8, "reopen": 8, "renumber": 4, "save": 5, "header": 3, "footer": 2, "listitem": 3, "para": 3,
+		"resize": 5, "setlook": 2, "imgnoelem": 1, "badadd": 2, "swap": 2})
 )
 
 func weighted(w map[string]int) []string {
 	// deterministic order
-	keys := []string{"img", "imgfile", "table", "cellimg", "cellimgd", "cellimgf", "phpara", "cellph", "render", "reopen", "renumber", "save", "header", "footer", "listitem", "para"}
+	keys := []string{"img", "imgfile", "table", "cellimg", "cellimgd", "cellimgf", "phpara", "cellph", "render", "reopen", "renumber", "save", "header", "footer", "listitem", "para",
+		"resize", "setlook", "imgnoelem", "badadd", "swap"}
 	var out []string
 	for _, k := range keys {
 		for i := 0; i < w[k]; i++ {
@@ -38,20 +48,65 @@ func weighted(w map[string]int) []string {
 }
 
 func genPx(t *rapid.T, label string) int {
-	if rapid.IntRange(0, 2).Draw(t, label+"s") == 0 {
+	// (rapid draws the ends of a range far more often than its middle: the rare classes sit at middle values)
+	switch k := rapid.IntRange(0, 89).Draw(t, label+"s"); {
+	case k == 70: // past the design's 64 px: payloads of more than 64 KiB come from here
+		return rapid.SampledFrom([]int{65, 100, 150}).Draw(t, label)
+	case k < 30:
 		return rapid.SampledFrom(pxSpecial).Draw(t, label)
 	}
 	return rapid.IntRange(1, 64).Draw(t, label)
 }
 
-func genImg(t *rapid.T) gen.Img {
-	return gen.Img{
+// imgGen draws the images of one case; it remembers them so that a later one can be an earlier one again (the same
+// bytes, under the same or another name) or an earlier one with bytes after its end-of-image marker.
+type imgGen struct {
+	seen []gen.Img
+	tiny bool // a burst is being drawn: 1-3 px
+}
+
+func genName(t *rapid.T) string {
+	if rapid.IntRange(0, 3).Draw(t, "morenames") == 0 {
+		return rapid.SampledFrom(moreNames).Draw(t, "name")
+	}
+	return rapid.SampledFrom(gen.ImgNames).Draw(t, "name")
+}
+
+func (g *imgGen) draw(t *rapid.T) gen.Img {
+	if len(g.seen) > 0 && !g.tiny {
+		switch rapid.IntRange(0, 19).Draw(t, "again") {
+		case 9: // the same bytes once more, same name
+			return rapid.SampledFrom(g.seen).Draw(t, "earlier")
+		case 12: // the same bytes under another name
+			im := rapid.SampledFrom(g.seen).Draw(t, "earlier")
+			im.Name = genName(t)
+			return im
+		case 14: // an earlier image followed by a few more bytes, same name, format and pixel size
+			im := rapid.SampledFrom(g.seen).Draw(t, "earlier")
+			im.Pat = im.Pat&(1<<tailShift-1) | rapid.IntRange(1, 3).Draw(t, "tail")<<tailShift
+			g.seen = append(g.seen, im)
+			return im
+		}
+	}
+	im := gen.Img{
 		Fmt:  rapid.SampledFrom([]string{"png", "jpeg", "gif"}).Draw(t, "fmt"),
 		W:    genPx(t, "pw"),
 		H:    genPx(t, "ph"),
 		Pat:  rapid.IntRange(0, 1<<20).Draw(t, "pat"),
-		Name: rapid.SampledFrom(gen.ImgNames).Draw(t, "name"),
+		Name: genName(t),
 	}
+	if g.tiny {
+		im.W, im.H = 1+im.W%3, 1+im.H%3
+	} else if rapid.IntRange(0, 59).Draw(t, "big") == 40 {
+		// a payload of more than 64 KiB (the pixels are noise: a PNG of 160x160 px has about 77 KiB)
+		im.W, im.H = rapid.SampledFrom([]int{160, 200}).Draw(t, "bigw"), rapid.SampledFrom([]int{160, 176}).Draw(t, "bigh")
+		im.Fmt = rapid.SampledFrom([]string{"png", "png", "jpeg"}).Draw(t, "bigfmt")
+	}
+	if rapid.IntRange(0, 29).Draw(t, "tailed") == 20 {
+		im.Pat |= rapid.IntRange(1, 3).Draw(t, "tail") << tailShift
+	}
+	g.seen = append(g.seen, im)
+	return im
 }
 
 func genMM(t *rapid.T, label string) float64 {
@@ -112,8 +167,21 @@ func genCase(t *rapid.T) Case {
 		kinds = directKinds
 	}
 	nTables, pending := 0, map[string]bool{}
+	altTables, altPending := 0, map[string]bool{} // the same for the case's other document
+	ig := &imgGen{}
 	// reuse: the case keeps one TemplateEngine, one TemplateData and a few file paths whose content it replaces between uses
-	rs := &reuseGen{on: rapid.IntRange(0, 1).Draw(t, "reuse") == 1}
+	rs := &reuseGen{on: rapid.IntRange(0, 1).Draw(t, "reuse") == 1, imgs: ig}
+	// shared config objects: in a third of the cases some additions pass one of up to two *ImageConfig objects the case keeps
+	cfgOn := rapid.IntRange(0, 2).Draw(t, "cfgreuse") == 1
+	rs.cfgOn = cfgOn
+	// a burst of additions that takes counts past 10 (now and then past 32 and, in the thorough tier, past 64)
+	burstAt, burstLen := -1, 0
+	switch b := rapid.IntRange(0, 59).Draw(t, "burst"); {
+	case b >= 30 && b < 38:
+		burstAt, burstLen = rapid.IntRange(0, n-1).Draw(t, "burstat"), rapid.IntRange(8, 13).Draw(t, "burstlen")
+	case b == 45:
+		burstAt, burstLen = rapid.IntRange(0, n-1).Draw(t, "burstat"), rapid.IntRange(31, kit.Scale(36, 70)).Draw(t, "burstlen")
+	}
 	sel := func() []int {
 		return []int{rapid.IntRange(0, 5).Draw(t, "ts"), rapid.IntRange(0, 5).Draw(t, "rs"), rapid.IntRange(0, 5).Draw(t, "cs")}
 	}
@@ -122,6 +190,46 @@ func genCase(t *rapid.T) Case {
 		nTables++
 	}
 	for len(c.Steps) < n {
+		if burstAt >= 0 && len(c.Steps) >= burstAt {
+			burstAt = -1
+			ig.tiny = true
+			kind := rapid.SampledFrom([]string{"img", "img", "imgfile", "cellimgd", "mixed"}).Draw(t, "burstkind")
+			if kind == "cellimgd" && nTables == 0 {
+				addTable()
+			}
+			for j := 0; j < burstLen; j++ {
+				k := kind
+				if k == "mixed" {
+					k = rapid.SampledFrom([]string{"img", "imgfile", "header", "img", "listitem"}).Draw(t, "bk")
+				}
+				switch k {
+				case "img", "imgfile":
+					im := ig.draw(t)
+					sz := genSize(t, sizeModes)
+					c.Steps = append(c.Steps, Step{K: k, Img: &im, Size: &sz})
+				case "cellimgd":
+					im := ig.draw(t)
+					sz := genSize(t, []string{"none", "wkeep"})
+					c.Steps = append(c.Steps, Step{K: k, Img: &im, Size: &sz, Sel: sel()})
+				default:
+					c.Steps = append(c.Steps, Step{K: k, N: rapid.IntRange(0, 6).Draw(t, "hk"), S: "t"})
+				}
+			}
+			ig.tiny = false
+			// what the counts are for: the names and ids generated after them, also in a reopened document
+			switch rapid.IntRange(0, 3).Draw(t, "afterburst") {
+			case 0:
+				c.Steps = append(c.Steps, Step{K: "reopen", B: rapid.Bool().Draw(t, "viafile")})
+			case 1:
+				c.Steps = append(c.Steps, genRenumber(t))
+			}
+			for j := rapid.IntRange(1, 3).Draw(t, "more"); j > 0; j-- {
+				im := ig.draw(t)
+				sz := genSize(t, sizeModes)
+				c.Steps = append(c.Steps, Step{K: "img", Img: &im, Size: &sz})
+			}
+			continue
+		}
 		k := rapid.SampledFrom(kinds).Draw(t, "k")
 		if len(pending) > 0 && rapid.IntRange(0, 4).Draw(t, "rendernow") == 0 {
 			k = "render"
@@ -130,13 +238,14 @@ func genCase(t *rapid.T) Case {
 			k = map[string]string{"img": "imgfile", "cellimgd": "cellimgf"}[k]
 		}
 		switch k {
-		case "img", "imgfile":
-			im := genImg(t)
+		case "img", "imgfile", "imgnoelem":
+			im := ig.draw(t)
 			sz := genSize(t, sizeModes)
 			st := Step{K: k, Img: &im, Size: &sz, Look: genLook(t), S: rapid.SampledFrom(someTexts).Draw(t, "alt")}
 			if k == "imgfile" {
 				st.Slot = rs.slot(t)
 			}
+			st.Cfg = rs.cfg(t)
 			c.Steps = append(c.Steps, st)
 		case "table":
 			addTable()
@@ -144,7 +253,7 @@ func genCase(t *rapid.T) Case {
 			if nTables == 0 {
 				addTable()
 			}
-			im := genImg(t)
+			im := ig.draw(t)
 			var sz Size
 			if k == "cellimg" {
 				sz = genSize(t, cellModes)
@@ -204,13 +313,26 @@ func genCase(t *rapid.T) Case {
 		case "reopen":
 			c.Steps = append(c.Steps, Step{K: k, B: rapid.IntRange(0, 3).Draw(t, "viafile") == 0})
 		case "renumber":
-			c.Steps = append(c.Steps, Step{K: k, N: rapid.IntRange(0, nSchemes-1).Draw(t, "scheme"), M: rapid.IntRange(0, 2).Draw(t, "shift")})
+			c.Steps = append(c.Steps, genRenumber(t))
 		case "save":
 			c.Steps = append(c.Steps, Step{K: k})
 		case "header", "footer", "listitem":
 			c.Steps = append(c.Steps, Step{K: k, N: rapid.IntRange(0, 6).Draw(t, "hk"), S: rapid.SampledFrom(someTexts).Draw(t, "txt")})
 		case "para":
 			c.Steps = append(c.Steps, Step{K: k, S: rapid.SampledFrom(someTexts).Draw(t, "txt")})
+		case "resize":
+			sz := genSize(t, resizeModes)
+			c.Steps = append(c.Steps, Step{K: k, Ref: rapid.IntRange(0, 40).Draw(t, "ref"), Size: &sz})
+		case "setlook":
+			c.Steps = append(c.Steps, Step{K: k, Ref: rapid.IntRange(0, 40).Draw(t, "ref"), N: rapid.IntRange(0, 4).Draw(t, "setter"),
+				Look: []int{rapid.IntRange(0, 3).Draw(t, "pos"), rapid.IntRange(0, 4).Draw(t, "al"), rapid.IntRange(0, 4).Draw(t, "wrap")},
+				S:    rapid.SampledFrom(someTexts).Draw(t, "txt")})
+		case "badadd":
+			c.Steps = append(c.Steps, Step{K: k, N: rapid.IntRange(0, 4).Draw(t, "bad"), B: rapid.Bool().Draw(t, "incell"), Sel: sel()})
+		case "swap":
+			c.Steps = append(c.Steps, Step{K: k})
+			nTables, altTables = altTables, nTables
+			pending, altPending = altPending, pending
 		}
 	}
 	if len(pending) > 0 && rapid.IntRange(0, 3).Draw(t, "finalrender") != 0 {
@@ -222,6 +344,19 @@ func genCase(t *rapid.T) Case {
 	return c
 }
 
+// genRenumber: the package of another producer - other relationship ids and, in half of the steps, other media part names.
+func genRenumber(t *rapid.T) Step {
+	st := Step{K: "renumber", N: rapid.IntRange(0, nSchemes-1).Draw(t, "scheme"), M: rapid.IntRange(0, 2).Draw(t, "shift")}
+	if rapid.Bool().Draw(t, "media") {
+		st.Med = rapid.IntRange(1, nMedSchemes-1).Draw(t, "med")
+		st.MedK = rapid.IntRange(0, len(medShifts)-1).Draw(t, "medk")
+		if rapid.Bool().Draw(t, "idskept") {
+			st.N = schemeReverse // the relationship ids stay the dense set the library wrote, only the names are foreign
+		}
+	}
+	return st
+}
+
 // reuseGen is the generator's view of the sources a case keeps: which names the one engine's loaded template still
 // has as placeholders, which names the one TemplateData holds, and how the previous render supplied each name.
 type reuseGen struct {
@@ -229,6 +364,16 @@ type reuseGen struct {
 	lastNames map[string]bool   // placeholders of the document the one engine loaded last
 	shared    map[string]bool   // names set in the one TemplateData
 	prev      map[string]TplImg // entry of the previous render, per name
+	imgs      *imgGen
+	cfgOn     bool
+}
+
+// cfg draws which config object an addition passes: 0 one of its own, k>0 the case's k-th shared object.
+func (rs *reuseGen) cfg(t *rapid.T) int {
+	if !rs.cfgOn {
+		return 0
+	}
+	return rapid.SampledFrom([]int{0, 0, 1, 1, 1, 2}).Draw(t, "cfg")
 }
 
 func (rs *reuseGen) slot(t *rapid.T) int {
@@ -247,7 +392,15 @@ func genRender(t *rapid.T, pending map[string]bool, rs *reuseGen, again bool) St
 			st.Eng = 2
 		}
 	}
-	for _, name := range []string{"a", "b", "c", "d", "img_1", "X9"} {
+	if !again && rapid.IntRange(0, 5).Draw(t, "renderer") == 3 {
+		st.Eng = 3 // LoadTemplateFromFile + RenderTemplate of a TemplateRenderer
+	}
+	st.Merge = rapid.IntRange(0, 5).Draw(t, "merge") == 4
+	if st.TD == 1 && len(rs.shared) > 0 && rapid.IntRange(0, 5).Draw(t, "clear") == 2 {
+		st.Clear = true
+		rs.shared = map[string]bool{}
+	}
+	for _, name := range allPhNames {
 		use := pending[name] && rapid.IntRange(0, 9).Draw(t, "supply") != 0
 		if !pending[name] && rapid.IntRange(0, 9).Draw(t, "extra") == 0 {
 			use = true
@@ -262,10 +415,11 @@ func genRender(t *rapid.T, pending map[string]bool, rs *reuseGen, again bool) St
 		if rs.on {
 			vs = reuseVias
 		}
-		d := TplImg{Name: name, Img: genImg(t), Via: rapid.SampledFrom(vs).Draw(t, "via"), Size: genSize(t, sizeModes), Look: genLook(t)}
+		d := TplImg{Name: name, Img: rs.imgs.draw(t), Via: rapid.SampledFrom(vs).Draw(t, "via"), Size: genSize(t, sizeModes), Look: genLook(t)}
 		if viaFile(d.Via) {
 			d.Slot = rs.slot(t)
 		}
+		d.Cfg = rs.cfg(t)
 		if p, ok := rs.prev[name]; ok && rs.on && rapid.IntRange(0, 1).Draw(t, "likebefore") == 0 {
 			// the same source as in the previous render (same call, same path), other image
 			d.Via, d.Slot = p.Via, p.Slot
